@@ -53,9 +53,13 @@ AllocOK(N, F, X, D) ==
 BIds(b) == {b[k].id : k \in DOMAIN b}
 DocIn(b, i) == b[CHOOSE k \in DOMAIN b : b[k].id = i].doc
 
+\* a field whose value has the wrong type for the index declared on it
+BadDoc(doc) == \E f \in DOMAIN doc : doc[f].bad = 1
+
 InsertValid(b) ==
   /\ \A j, k \in DOMAIN b : j # k => b[j].id # b[k].id
   /\ BIds(b) \cap DOMAIN pts = {}
+  /\ \A k \in DOMAIN b : ~BadDoc(b[k].doc)
 
 \* sequential application of an update batch, unknown ids skipped
 RECURSIVE ApplyUpd(_, _)
@@ -65,13 +69,15 @@ ApplyUpd(P, b) ==
        IN  ApplyUpd(IF h.id \in DOMAIN P THEN [P EXCEPT ![h.id] = Merge(@, h.doc)] ELSE P,
                     Tail(b))
 
-\* some merged document (at the moment it is merged) exceeds the limit
+\* the update is rejected as a whole: some merged document (at the moment it
+\* is merged) exceeds the limit, or a processed point carries a wrong-typed field
 RECURSIVE UpdOversize(_, _, _)
 UpdOversize(P, b, Limit) ==
   IF b = <<>> THEN FALSE
   ELSE LET h == Head(b)
        IN  IF h.id \in DOMAIN P
            THEN \/ DocWeight(Merge(P[h.id], h.doc)) > Limit
+                \/ BadDoc(h.doc)
                 \/ UpdOversize([P EXCEPT ![h.id] = Merge(@, h.doc)], Tail(b), Limit)
            ELSE UpdOversize(P, Tail(b), Limit)
 
